@@ -10,6 +10,14 @@
 // every execution checks: no deadlock / livelock / panic, the lockset access monitor (no
 // conflicting unsynchronised accesses), and the scenario oracle on the final state read through
 // a fresh handle and on every result a thread obtained.
+//
+// In those v2 scenarios the store lock is the scheduler's reader/writer lock over the in-memory
+// back end. The REAL lock of the directory back end (flock on <root>/.lock + in-process mutex) is
+// covered by dirlock.go: (L) every history up to a depth of open / close / lock / unlock / rlock /
+// runlock over three handles of one real key directory, oracle = the flock contract between every
+// pair of live handles after every sequence of opens and closes; (W) two writers on the real key
+// store over the real directory back end under the scheduler, for every order of opening the
+// writers' handles and opening + closing a third handle before, or while, they run.
 package main
 
 import (
@@ -21,6 +29,7 @@ import (
 	"sort"
 	"strconv"
 	"strings"
+	"time"
 
 	"github.com/golang/groupcache/lru"
 
@@ -189,7 +198,7 @@ var (
 	sigKey = bytes.Repeat([]byte{0x22}, 32)
 )
 
-func v2Handle(b *sbackend) (*keystoreV2.ServerKeyStore, apiV2.MutableKeyStore) {
+func v2Handle(b backendV2.Backend) (*keystoreV2.ServerKeyStore, apiV2.MutableKeyStore) {
 	suite, err := cryptoV2.NewSCellSuite(append([]byte{}, encKey...), append([]byte{}, sigKey...))
 	if err != nil {
 		ev.Fatalf("suite: %v", err)
@@ -287,7 +296,7 @@ type ringKey struct {
 }
 
 // readRing reads the final state of client id's storage-sym ring through a fresh handle.
-func readRing(b *sbackend, id []byte) (keys []ringKey, current int, err error) {
+func readRing(b backendV2.Backend, id []byte) (keys []ringKey, current int, err error) {
 	_, mks := v2Handle(b)
 	ring, err := mks.OpenKeyRing("client/" + string(id) + "/storage-sym")
 	if err != nil {
@@ -759,6 +768,8 @@ func (sc v1scenario) build() sched.Scenario {
 // ---- driver ---------------------------------------------------------------------------------
 
 type replayT struct {
+	Part     string `json:"part,omitempty"`    // "lifecycle": a handle life-cycle history (dirlock.go)
+	History  []dlOp `json:"history,omitempty"`
 	Scenario string `json:"scenario"`
 	FailAt   int    `json:"fail_backend_call_of_first_thread,omitempty"`
 	Bound    int    `json:"preemption_bound"`
@@ -784,6 +795,7 @@ func main() {
 	r := ev.New("C17", "model_checking")
 	fx.Quiet()
 	installHooks()
+	installFlockHook()
 	_ = rand.Reader
 	v1setup()
 	defer os.RemoveAll(v1dir)
@@ -795,35 +807,66 @@ func main() {
 		name  string
 		build func(failAt int) sched.Scenario
 		fault bool
+		bound int // own preemption bound (0 = the tier's)
+		key   string // name used in finding keys ("" = name): one defect seen under many configurations of a family keeps one key
 	}
 	var all []scen
 	for _, sc := range v2scenarios(r.Thorough()) {
 		sc := sc
-		all = append(all, scen{"v2/" + sc.Name, sc.build, sc.Fault})
+		all = append(all, scen{"v2/" + sc.Name, sc.build, sc.Fault, 0, ""})
 	}
 	for _, sc := range ringScenarios(r.Thorough()) {
 		sc := sc
-		all = append(all, scen{"v2/" + sc.Name, sc.build, sc.Fault})
+		all = append(all, scen{"v2/" + sc.Name, sc.build, sc.Fault, 0, ""})
+	}
+	// writers on the real directory back end with the real file lock (dirlock.go)
+	for _, sc := range dirScenarios(r.Thorough()) {
+		sc := sc
+		b := 1 // every execution works on real files: bound 2 (about 11000 executions for the in-thread scenario alone) is left to thorough
+		if r.Thorough() {
+			b = 2
+		}
+		all = append(all, scen{"v2/" + sc.Name, sc.build, false, b, "v2/" + strings.SplitN(sc.Name, "/", 2)[0]})
 	}
 	for _, sc := range v1scenarios(r.Thorough()) {
 		sc := sc
-		all = append(all, scen{"v1/" + sc.Name, func(int) sched.Scenario { return sc.build() }, false})
+		all = append(all, scen{"v1/" + sc.Name, func(int) sched.Scenario { return sc.build() }, false, 0, ""})
 	}
 	if r.Replay != "" {
 		var rp replayT
 		r.LoadReplay(&rp)
+		if rp.Part == "lifecycle" {
+			class, msg, _, sig := dlRun(rp.History)
+			fmt.Println("replay of life-cycle history", rp.History, "->", class, msg, sig)
+			if class != "" {
+				r.Violation("C17/dirlock/lifecycle/"+class, msg, rp)
+			}
+			r.Finish()
+		}
 		for _, sc := range all {
 			if sc.name == rp.Scenario {
 				e := &sched.Explorer{Scenario: sc.build(rp.FailAt), Bound: rp.Bound}
 				fails := e.Replay(rp.Choices)
 				fmt.Println("replay of", rp.Scenario, rp.Choices, "->", fails)
+				kn := sc.name
+				if sc.key != "" {
+					kn = sc.key
+				}
 				for _, f := range fails {
-					r.Violation("C17/"+rp.Scenario+"/"+normalise(f), f, rp)
+					r.Violation("C17/"+kn+"/"+normalise(f), f, rp)
 				}
 			}
 		}
 		r.Finish()
 	}
+	lifeDepth := 7
+	if r.Thorough() {
+		lifeDepth = 9
+	}
+	t0 := time.Now() // measurement only (evidence key wall_seconds_*), never an oracle
+	dirLifecycle(r, lifeDepth)
+	r.Set("wall_seconds_dirlock_lifecycle", time.Since(t0).Seconds())
+	dirWall, dirExec := time.Duration(0), 0
 	totalExec, totalTrans := 0, 0
 	boundsDone := map[string]int{}
 	for _, sc := range all {
@@ -836,14 +879,23 @@ func main() {
 		}
 		for _, failAt := range faults {
 			outcomes := map[string]int{}
-			for bound := 0; bound <= maxBound; bound++ {
+			scBound := maxBound
+			if sc.bound > 0 {
+				scBound = sc.bound
+			}
+			for bound := 0; bound <= scBound; bound++ {
 				if r.Expired() {
 					r.Capped(fmt.Sprintf("%s: preemption bound %d not started", sc.name, bound))
 					break
 				}
 				e := &sched.Explorer{Scenario: sc.build(failAt), Bound: bound, Stop: r.Expired,
 					Outcome: func(x *sched.Execution) string { return fmt.Sprint(x.Choices) }}
+				t1 := time.Now()
 				res := e.Run()
+				if strings.HasPrefix(sc.name, "v2/DIR-") {
+					dirWall += time.Since(t1)
+					dirExec += res.Executions
+				}
 				totalExec += res.Executions
 				totalTrans += res.Transitions
 				r.Eval(res.Executions)
@@ -860,17 +912,21 @@ func main() {
 					if again := e.Replay(res.Failures[f]); !contains(again, f) {
 						ev.Fatalf("%s: failure %q did not replay (%v)", sc.name, f, again)
 					}
-					key := "C17/" + sc.name + "/" + normalise(f)
-					if failAt > 0 {
-						key = "C17/" + sc.name + "/fault/" + normalise(f)
+					kn := sc.name
+					if sc.key != "" {
+						kn = sc.key
 					}
-					r.Violation(key, fmt.Sprintf("%s (preemption bound %d, schedule %v)", f, bound, res.Failures[f]), rp)
+					key := "C17/" + kn + "/" + normalise(f)
+					if failAt > 0 {
+						key = "C17/" + kn + "/fault/" + normalise(f)
+					}
+					r.Violation(key, fmt.Sprintf("%s: %s (preemption bound %d, schedule %v)", sc.name, f, bound, res.Failures[f]), rp)
 				}
 				for o, n := range res.Outcomes {
 					outcomes[o] += n
 				}
 				r.Distinct(fmt.Sprintf("%s|%d|%d|%d", sc.name, failAt, bound, len(res.Outcomes)))
-				if bound == maxBound && failAt == faults[0] {
+				if bound == scBound && failAt == faults[0] {
 					r.Sample(map[string]interface{}{"scenario": sc.name, "preemption_bound": bound, "executions": res.Executions, "scheduling_points_max": res.MaxPoints, "failures": res.Order})
 				}
 			}
@@ -880,15 +936,21 @@ func main() {
 		}
 	}
 	r.States(totalExec)
+	dirCleanup()
+	r.Set("wall_seconds_dirlock_writers", dirWall.Seconds())
+	r.Set("dirlock_writer_executions", dirExec)
 	r.Set("preemption_bounds_completed", boundsDone)
 	r.Set("scenarios", len(all))
-	r.Rule("state = one complete interleaving (choice sequence) of a scenario; transitions = scheduling points executed; every interleaving with at most B preemptions is executed on the real code for B = 0..max; distinct_nontrivial = distinct schedules per (scenario, fault position) plus distinct outcome counts")
+	r.Rule("state = one complete interleaving (choice sequence) of a scenario; transitions = scheduling points executed; every interleaving with at most B preemptions is executed on the real code for B = 0..max; distinct_nontrivial = distinct schedules per (scenario, fault position) plus distinct outcome counts; dirlock life cycle (dirlock.go part L): state = one history (incl. every prefix) over {open, close, lock, unlock, rlock, runlock} x 3 handle slots of one real key directory (an operation is enabled when the handle's own state admits it; slots first used in order), every history of the full depth is executed on a fresh directory with the real DirectoryBackend; evaluation = one lock / rlock attempt compared with the flock contract (granted iff no other live handle holds a conflicting lock); distinct = distinct granted/waits outcome strings; dirlock writers (part W): scenarios v2/DIR-*: interleavings (as above) of two generate operations through the real key store over the real DirectoryBackend, for each of the 2 + 12 orders of the preamble events {open A, open B, open X, close X} and for handles opened inside the threads with a third thread opening and closing X; finding keys name the family, the replay names the configuration")
 	r.Assume("scheduling points at lock operations, back-end/storage calls and LRU operations; accesses between two points are atomic (checked separately by the lockset monitor on instrumented objects and by a free-running -race pass in thorough)",
 		"separate processes are represented by separate keystore handles sharing one back end; the back end lock is modelled by a scheduler-aware reader/writer lock with the contract of flock / RWMutex",
-		"Themis replaced by the pure-Go stand-in")
+		"Themis replaced by the pure-Go stand-in",
+		"dirlock.go: separate processes are represented by separate handles of one key directory in one process (flock locks belong to the open file description, and each handle opens its own); every flock(2) call of file_lock.go is preceded by the same call with LOCK_NB on the same descriptor (build overlay seam): EWOULDBLOCK is the observation 'would wait' (part L) or makes the scheduler thread wait cooperatively (part W); who excludes whom is decided by the kernel, nothing of the lock is modelled; a failed generate (optimistic refusal) may leave its added key behind as a non-current key (accepted: the statement speaks of successful operations)",
+		"dirlock.go part L: handle slot 1 is opened with OpenDirectoryBackend, slots 0 and 2 with CreateDirectoryBackend; the key directory is created (one handle opened and closed) before each history; a Lock on a handle that already holds a lock (self-deadlock by contract) is not in the alphabet; failures of flock(2) itself are C08's")
 	if r.Thorough() {
 		raceCrossCheck(r)
 	}
+	os.RemoveAll(v1dir) // Finish exits the process: the deferred removal above never runs
 	r.Finish()
 }
 
